@@ -398,7 +398,10 @@ XSModel *GrammarResolver::getXSModel()
             }       
         }
         else {
-            // we know that the grammar pool XSModel is the same as before
+            // we know that the grammar pool XSModel is the same as before;
+            // remember it in case this is the first time we see it (a locked
+            // pool never reports its XSModel as changed)
+            fGrammarPoolXSModel = xsModel;
             if (fGrammarsToAddToXSModel->size())
             {
                 // we need to update our fXSModel with the new grammars               
